@@ -40,6 +40,13 @@ func Skeletons() []Skeleton {
 			"Propose(Payer,R1rep,warning,half)", "AddFee(Tipper,last,1)", "AddFee(R2,last,rest,frombond)",
 			"Vote(Team,against)", "Block(48h0m0.001s)", "Block(24h0m0.001s)", "FeeRefund(Payer)", "FeeRefund(R2)", "FeeRefund(Tipper)", b1,
 		}},
+		// two voting rounds with different turnout: the larger voter only in round one, a smaller one only in round two
+		{Name: "dispute-rounds", MintOn: false, Labels: []string{
+			"Tip(cyc,1000)", "Submit(R1,cyc,std)", "Submit(R2,cyc,std200)", b1, b1, b1,
+			"Propose(Payer,R1rep,warning,full)", "Vote(R2,against)", "Block(48h0m0.001s)",
+			"Propose(Payer,R1rep,warning,full)", "Vote(Tipper,support)", "Block(48h0m0.001s)", "Block(24h0m0.001s)",
+			"ClaimReward(R2)", "ClaimReward(Tipper)", "FeeRefund(Payer)", "FeeRefund(Payer,first)", b1,
+		}},
 		{Name: "bridge", MintOn: true, Deep: deepDeposit, Labels: []string{
 			"Block(12h0m0s)", "ClaimDeposits(Payer,[1],[0])", "WithdrawTokens(Tipper,20b,1e6)", b1, "RequestAttest(eth,last)", b1,
 			"Delegate(Payer,V3,150)", b1, "WithdrawTokens(Tipper,20b,1)", b1,
